@@ -251,6 +251,8 @@ class SocMonitor:
         self.count = 0
 
     def observe(self, letter, outs):
+        forced_w = self.pay and self.base.w.forced           # forced-response phase (before this cycle's step)
+        forced_r = self.pay and self.base.r.forced
         msg = self.base.observe(tuple(letter[:self.nl]), list(outs[:self.no]))
         if msg:
             return msg
@@ -268,6 +270,21 @@ class SocMonitor:
                 if see != want:
                     return "slave %d sees awid/awlen/wlast/arid/arlen = %r, the owners (write: master %d, read: master %d) drive %r" % (
                         j, see, gw, gr, want)
+            # response ids.  A FORCED B/R carries the decoder's id mux instead of the request's id: known finding
+            # C11-axi-forced-response-id (replayed by its probe), not judged here.  The id of an ANSWERED request is
+            # the answering slave's: anything else is a fresh violation.
+            ps = [letter[self.nl + 5 * n + 2 * j: self.nl + 5 * n + 2 * j + 2] for j in range(k)]
+            pb = self.no + 5 * k
+            bv_g = outs[4 * k + 4 * gw + 2]
+            rv_g = outs[4 * k + 4 * n + 3 * k + 5 * gr + 1]
+            drv_b = [j for j in range(k) if letter[4 * n + 4 * j + 2]]
+            drv_r = [j for j in range(k) if letter[4 * n + 4 * k + 3 * n + 5 * j + 1]]
+            if bv_g and not forced_w and len(drv_b) == 1 and outs[pb + 2 * gw] != ps[drv_b[0]][0]:
+                return "answered write: master %d sees b.id=%d, slave %d answers with b.id=%d" % (
+                    gw, outs[pb + 2 * gw], drv_b[0], ps[drv_b[0]][0])
+            if rv_g and not forced_r and len(drv_r) == 1 and outs[pb + 2 * gr + 1] != ps[drv_r[0]][1]:
+                return "answered read: master %d sees r.id=%d, slave %d answers with r.id=%d" % (
+                    gr, outs[pb + 2 * gr + 1], drv_r[0], ps[drv_r[0]][1])
         return None
 
 # ---------------------------------------------------------------------------------------------------------
